@@ -139,7 +139,8 @@ func VerifC17_HandlerResponse() {
 	verifAssume(n > 0 || batchErr != nil) // the service module never reports an empty success
 	bt := verifInt64("blockTime")
 	verifAssume(bt > 2000 && bt < 1<<32)
-	ctx := e.ctx.WithBlockTime(time.Unix(bt, 0))
+	// block times carry nanoseconds
+	ctx := e.ctx.WithBlockTime(time.Unix(bt, 123456789))
 	before := k.GetFeedValues(ctx, "pair")
 	verifAssert(len(before) == history, "a feed's history holds its own values only")
 	for i := range before {
